@@ -8,7 +8,9 @@ builtin ``open`` — as **module globals of that module** (nothing is patched pr
     the target module that made the call ("site"), the path argument.
 
 An execution is driven by a *fault plan*: a list of faults, each addressed either by absolute call index
-(``{"at": i}``) or by label + occurrence (``{"name": "replace", "occ": 2}``) with a kind
+(``{"at": i}``), by label + occurrence (``{"name": "replace", "occ": 2}``) or by label + calling function + occurrence
+within that function (``{"name": "fsync", "site": "atomic_write_bytes", "socc": 2}`` — stable when an earlier fault is
+dropped from a plan) with a kind
 
     kill-before   the process dies before the call has any effect            (Crash raised, engine goes *dead*)
     kill-after    the call takes effect, then the process dies
@@ -386,6 +388,7 @@ class FaultEngine:
         self.clock = 1_700_000_000.0
         self.names = _Names("alpha")
         self._occ: Dict[str, int] = {}
+        self._socc: Dict[Tuple[str, str], int] = {}
         self._raws: List[FaultRaw] = []
         self._fds: set = set()
         self._installed: List[Tuple[Any, str, bool, Any]] = []
@@ -422,7 +425,7 @@ class FaultEngine:
     # -- one execution -------------------------------------------------------------------
     def begin(self, plan: List[Dict[str, Any]], probe=None, root: Optional[str] = None, names: str = "alpha") -> None:
         for f in plan:
-            if f.get("kind") not in KINDS or not (("at" in f) or ("name" in f and "occ" in f)):
+            if f.get("kind") not in KINDS or not (("at" in f) or ("name" in f and ("occ" in f or "socc" in f))):
                 raise HarnessError("malformed fault %r" % (f,))
         self.plan = list(plan)
         self.trace = []
@@ -432,6 +435,7 @@ class FaultEngine:
         self.clock = 1_700_000_000.0
         self.names = _Names(names)
         self._occ = {}
+        self._socc = {}
         self.dead = False
         self.in_probe = False
         self._depth = 0
@@ -510,13 +514,17 @@ class FaultEngine:
                 return p[len(r) + 1:]
         return p
 
-    def _lookup(self, idx: int, label: str, occ: int) -> Optional[Dict[str, Any]]:
+    def _lookup(self, idx: int, label: str, occ: int, site: str, socc: int) -> Optional[Dict[str, Any]]:
         for f in self.plan:
             if "at" in f:
                 if f["at"] == idx:
                     return f
-            elif f["name"] == label and f["occ"] == occ:
-                return f
+            elif f["name"] == label:
+                if "socc" in f:
+                    if f.get("site") == site and f["socc"] == socc:
+                        return f
+                elif f["occ"] == occ:
+                    return f
         return None
 
     def _real(self, fn: Callable, a: tuple, k: Optional[dict]):
@@ -544,8 +552,11 @@ class FaultEngine:
         idx = len(self.trace)
         occ = self._occ.get(label, 0) + 1
         self._occ[label] = occ
-        ent: Dict[str, Any] = {"i": idx, "name": label, "occ": occ, "site": self._site(), "path": self._rel(path),
-                               "failable": failable, "writer": writer}
+        site = self._site()
+        socc = self._socc.get((site, label), 0) + 1
+        self._socc[(site, label)] = socc
+        ent: Dict[str, Any] = {"i": idx, "name": label, "occ": occ, "site": site, "socc": socc,
+                               "path": self._rel(path), "failable": failable, "writer": writer}
         if writer:
             ent["len"] = len(a[0])
         self.trace.append(ent)
@@ -555,7 +566,7 @@ class FaultEngine:
                 self.probe(self, ent)
             finally:
                 self.in_probe = False
-        f = self._lookup(idx, label, occ)
+        f = self._lookup(idx, label, occ, site, socc)
         if f is None:
             return self._real(fn, a, k)
         self.fired.append((idx, f))
